@@ -369,6 +369,7 @@ fn count_dims(t: &mut Tally, e: &Env) {
     b("output_directory_with_stale_files", e.dirty_out);
     b("crash_restart_on_same_output_directory", e.crash_first_us.is_some());
     b("inherited_stdin_carries_a_copy_of_the_input", e.stdin_noise);
+    b("stdin_producer_pauses_half_way", e.stdin_pause_ms.is_some());
     b("native_no_interposer", !e.preload);
 }
 
